@@ -165,6 +165,19 @@ def gen_cases(c):
             stream = stored_member(r1) + gzip.compress(r2) + gzip.compress(r3)
             add(stream, [] if d % 2 else rand_frags(rng, len(stream), 5000), ("ok", [r1, r2, r3]),
                 "valid/gz/member-ends-at-refill-boundary%+d" % d, [r1, r2, r3])
+    # --- .warc.gz cut exactly where the DECODED bytes end on a record boundary: one gzip member for the whole
+    #     file with a deflate flush point (sync / full flush, stored blocks) between the records, cut at the
+    #     flush point, and cut before / inside the 8-byte trailer.  The framing of what was decoded is intact,
+    #     only the decompressor can tell: it must be an error, the records before it intact or not delivered
+    ra, rb, rc_ = rec(b"first body"), rec(rbytes(300)), rec(b"")
+    for lvl in (0, 6):
+        for flush in (zlib.Z_SYNC_FLUSH, zlib.Z_FULL_FLUSH):
+            co = zlib.compressobj(lvl, zlib.DEFLATED, 31)
+            p1 = co.compress(ra) + co.flush(flush)
+            p2 = co.compress(rb) + co.flush(flush)
+            whole = p1 + p2 + co.compress(rc_) + co.flush()
+            for cut in sorted(set([len(p1), len(p1) + len(p2)] + list(range(len(whole) - 8, len(whole))))):
+                add(whole[:cut], rng.choice(([], rand_frags(rng, cut, 30))), ("err", None), "broken/gz-cut-at-record-boundary-of-the-decoded-data")
     # --- broken framing -> must be an error, records before it intact
     good = rec(b"first body")
     tail = rec(b"tail")
@@ -322,7 +335,9 @@ def main(argv):
         if len(mout) != len(mlines):
             c.broken.append("model driver produced %d lines for %d cases (rc %s) %s" % (len(mout), len(mlines), rc, merr[-300:]))
         else:
-            dis = [(l, a, b) for l, a, b in zip(lines, mout, results) if a != b and b != "SKIPPED"]
+            # (a truncated compressed input is outside the plain-source model: oracle only)
+            dis = [(l, a, b) for x, l, a, b in zip(cases, lines, mout, results)
+                   if a != b and b != "SKIPPED" and not x["bucket"].startswith("broken/gz-cut")]
             c.cov["traces_validated_against_impl"] += len(lines)
             if dis:
                 l, a, b = min(dis, key=lambda d: len(d[0]))
@@ -412,6 +427,15 @@ def main(argv):
         if st == 0:
             c.violation("warc_parallel-truncated-input-accepted: %s exits 0 (%d output bytes); a stream cut inside a record must be an error" % (how, len(so)),
                         {"op": "warc_parallel", "how": how, "input_hex": data_in.hex(), "status": st, "stdout_len": len(so)})
+    # .warc.gz cut at a deflate flush point between two records / before the trailer, through the tool
+    for x in [y for y in cases if y["bucket"] == "broken/gz-cut-at-record-boundary-of-the-decoded-data"][::5]:
+        nm = os.path.join(work, "flushcut.warc.gz")
+        open(nm, "wb").write(x["stream"])
+        st, so, se = codeclog.run_tool_limited([repo_bin("warc_parallel"), "-j", "2", "-i", nm, "--", "cat"], stdin=b"", timeout=25)
+        c.count(("gz-flush-cut-tool", len(x["stream"])), bucket="warc_parallel/truncated-input/gz-cut-at-flush-point")
+        if st == 0:
+            c.violation("warc_parallel-truncated-input-accepted: a .warc.gz cut after %d bytes (at a deflate flush point between records / inside the trailer) is accepted, exit 0, %d output bytes" % (len(x["stream"]), len(so)),
+                        {"op": "warc_parallel", "how": "warc_parallel -j 2 -i <cut.warc.gz> -- cat", "stream_hex": x["stream"].hex(), "status": st})
     # several inputs, only one of them truncated
     good_in = os.path.join(work, "good.warc")
     open(good_in, "wb").write(b"".join(make_records(12, 500)))
